@@ -22,6 +22,17 @@ import copy
 from .program import FuncInfo, Program
 
 
+def _clone(n):
+    """Deep copy of a subtree that does not follow the `_parent` back-link out of it."""
+    if isinstance(n, list):
+        return [_clone(x) for x in n]
+    memo = {}
+    p = getattr(n, "_parent", None)
+    if p is not None:
+        memo[id(p)] = None
+    return copy.deepcopy(n, memo)
+
+
 def _terminates(stmts):
     if not stmts:
         return False
@@ -52,8 +63,8 @@ def tailify(stmts):
             return out
         if isinstance(s, ast.If) and _has_return(s):
             rest = stmts[i + 1:]
-            body = list(s.body) + ([] if _terminates(s.body) else copy.deepcopy(rest))
-            orelse = list(s.orelse) + ([] if _terminates(s.orelse) else copy.deepcopy(rest))
+            body = list(s.body) + ([] if _terminates(s.body) else _clone(rest))
+            orelse = list(s.orelse) + ([] if _terminates(s.orelse) else _clone(rest))
             tb, te = tailify(body), tailify(orelse)
             if tb is None or te is None:
                 return None
@@ -153,6 +164,114 @@ class _ConstAttr(ast.NodeTransformer):
         return s
 
 
+def _own_jumps(loop):
+    """break / continue statements that belong to `loop` itself."""
+    out = []
+
+    def visit(n):
+        for c in ast.iter_child_nodes(n):
+            if isinstance(c, (ast.For, ast.While, ast.AsyncFor, ast.FunctionDef, ast.AsyncFunctionDef, ast.Lambda)):
+                continue
+            if isinstance(c, (ast.Break, ast.Continue)):
+                out.append(c)
+            visit(c)
+    for s in loop.body:
+        if isinstance(s, (ast.Break, ast.Continue)):
+            out.append(s)
+        elif not isinstance(s, (ast.For, ast.While, ast.AsyncFor)):
+            visit(s)
+    return out
+
+
+def _unroll_table_loops(fnode, limit=6):
+    """`for a, b in ((X, "k"), (Y, "i")): BODY` over a literal table of constants / names /
+    attribute chains, with no break / continue / else, whose targets are not rebound in BODY and
+    not used outside the loop, is replaced by one copy of BODY per row with the targets
+    substituted (exact: the rows are pure, so evaluating them up front or per copy is the same)."""
+    changed = True
+    while changed:
+        changed = False
+        for parent in ast.walk(fnode):
+            for fld in ("body", "orelse", "finalbody"):
+                blk = getattr(parent, fld, None)
+                if not (isinstance(blk, list) and blk and isinstance(blk[0], ast.stmt)):
+                    continue
+                for i, s in enumerate(blk):
+                    if not isinstance(s, ast.For) or s.orelse or not isinstance(s.iter, (ast.Tuple, ast.List)):
+                        continue
+                    rows = s.iter.elts
+                    if not rows or len(rows) > limit or _own_jumps(s):
+                        continue
+                    if isinstance(s.target, ast.Name):
+                        tnames = [s.target.id]
+                        vals = [[r] for r in rows]
+                    elif isinstance(s.target, (ast.Tuple, ast.List)) and all(isinstance(t, ast.Name) for t in s.target.elts):
+                        tnames = [t.id for t in s.target.elts]
+                        if not all(isinstance(r, (ast.Tuple, ast.List)) and len(r.elts) == len(tnames) for r in rows):
+                            continue
+                        vals = [list(r.elts) for r in rows]
+                    else:
+                        continue
+                    if not all(_pure_arg(v) for row in vals for v in row):
+                        continue
+                    holder = ast.Module(body=s.body, type_ignores=[])
+                    if set(tnames) & (_assigned_names(holder) | _comp_scoped_names(holder)):
+                        continue
+                    if any(isinstance(n, (ast.FunctionDef, ast.AsyncFunctionDef, ast.Lambda)) for n in ast.walk(holder)):
+                        continue
+                    # values named by the rows must not be rebound in the body (else per-copy evaluation differs)
+                    if {n for row in vals for v in row for n in _all_names(v)} & _assigned_names(holder):
+                        continue
+                    inside = {id(n) for n in ast.walk(s)}
+                    if any(isinstance(n, ast.Name) and n.id in tnames and id(n) not in inside for n in ast.walk(fnode)):
+                        continue
+                    new = []
+                    for row in vals:
+                        m = dict(zip(tnames, row))
+
+                        class Sub(ast.NodeTransformer):
+                            def visit_Name(self, n):
+                                if n.id in m and isinstance(n.ctx, ast.Load):
+                                    return ast.copy_location(_clone(m[n.id]), n)
+                                return n
+                        for b in s.body:
+                            new.append(Sub().visit(_clone(b)))
+                    blk[i:i + 1] = new
+                    changed = True
+                    break
+                if changed:
+                    break
+            if changed:
+                break
+
+
+def _propagate_str_consts(fnode):
+    """Within one statement list, `x = "lit"` reaches the following statements up to the next
+    one that stores `x`: loads of `x` there are replaced by the literal (what parameter
+    substitution followed by `prefix = name + "."` leaves behind)."""
+    for parent in list(ast.walk(fnode)):
+        for fld in ("body", "orelse", "finalbody"):
+            blk = getattr(parent, fld, None)
+            if not (isinstance(blk, list) and blk and isinstance(blk[0], ast.stmt)):
+                continue
+            for i, s in enumerate(blk):
+                if not (isinstance(s, ast.Assign) and len(s.targets) == 1 and isinstance(s.targets[0], ast.Name)
+                        and isinstance(s.value, ast.Constant) and isinstance(s.value.value, str)):
+                    continue
+                x, lit = s.targets[0].id, s.value
+
+                class Sub(ast.NodeTransformer):
+                    def visit_Name(self, n):
+                        if n.id == x and isinstance(n.ctx, ast.Load):
+                            return ast.copy_location(ast.Constant(value=lit.value), n)
+                        return n
+                for j in range(i + 1, len(blk)):
+                    t = blk[j]
+                    if x in _assigned_names(t) or x in _comp_scoped_names(t) or any(isinstance(n, (ast.FunctionDef, ast.AsyncFunctionDef, ast.Lambda)) for n in ast.walk(t)):
+                        break
+                    blk[j] = Sub().visit(t)
+
+
 class _Flattener:
     def __init__(self, prog: Program, func: FuncInfo, depth=4):
         self.prog = prog
@@ -163,7 +282,34 @@ class _Flattener:
 
     # -- resolution ---------------------------------------------------------------------
     def resolve(self, call, stack):
-        f = call.func
+        rt = self.resolve_target(call.func, stack)
+        if rt is None:
+            return None
+        target, bound_self = rt
+        if any(isinstance(a, ast.Starred) for a in call.args) or any(k.arg is None for k in call.keywords):
+            return None
+        # bind
+        args = ([bound_self] if bound_self is not None else []) + list(call.args)
+        params = target.params
+        if len(args) > len([p for p in params if p.kind in ("POSITIONAL_ONLY", "POSITIONAL_OR_KEYWORD")]):
+            return None
+        binding = {}
+        for p, a in zip(params, args):
+            binding[p.name] = a
+        for k in call.keywords:
+            if k.arg in binding or k.arg not in {p.name for p in params}:
+                return None
+            binding[k.arg] = k.value
+        for p in params:
+            if p.name not in binding:
+                if p.default is None or not isinstance(p.default, ast.Constant):
+                    return None
+                binding[p.name] = p.default
+        return target, binding
+
+    def resolve_target(self, f, stack):
+        """(helper FuncInfo, receiver expression or None) for a callee expression that names an
+        inlinable private helper of the same module."""
         func = self.func
         target, bound_self = None, None
         if isinstance(f, ast.Name):
@@ -213,30 +359,11 @@ class _Flattener:
                 return None
         if any(p.kind in ("VAR_POSITIONAL", "VAR_KEYWORD") for p in target.params):
             return None
-        if any(isinstance(a, ast.Starred) for a in call.args) or any(k.arg is None for k in call.keywords):
-            return None
-        # bind
-        args = ([bound_self] if bound_self is not None else []) + list(call.args)
-        params = target.params
-        if len(args) > len([p for p in params if p.kind in ("POSITIONAL_ONLY", "POSITIONAL_OR_KEYWORD")]):
-            return None
-        binding = {}
-        for p, a in zip(params, args):
-            binding[p.name] = a
-        for k in call.keywords:
-            if k.arg in binding or k.arg not in {p.name for p in params}:
-                return None
-            binding[k.arg] = k.value
-        for p in params:
-            if p.name not in binding:
-                if p.default is None or not isinstance(p.default, ast.Constant):
-                    return None
-                binding[p.name] = p.default
-        return target, binding
+        return target, bound_self
 
     # -- body preparation ---------------------------------------------------------------
     def prepare(self, target: FuncInfo, binding, caller_names, form, assign_targets):
-        body = [copy.deepcopy(s) for s in target.node.body]
+        body = [_clone(s) for s in target.node.body]
         if body and isinstance(body[0], ast.Expr) and isinstance(body[0].value, ast.Constant) and isinstance(body[0].value.value, str):
             body = body[1:]
         if form != "return":
@@ -260,7 +387,7 @@ class _Flattener:
                 self.counter += 1
                 new = f"{p}__{target.name.strip('_')}{self.counter}"
             rename[p] = new
-            b = ast.Assign(targets=[ast.Name(id=new, ctx=ast.Store())], value=copy.deepcopy(a), lineno=target.node.lineno, col_offset=0)
+            b = ast.Assign(targets=[ast.Name(id=new, ctx=ast.Store())], value=_clone(a), lineno=target.node.lineno, col_offset=0)
             binds.append(b)
         for l in sorted(locals_ - set(binding)):
             if l in caller_names and l not in assign_targets:
@@ -276,7 +403,7 @@ class _Flattener:
         class Sub(ast.NodeTransformer):
             def visit_Name(self, n):
                 if n.id in subst and isinstance(n.ctx, ast.Load):
-                    return copy.deepcopy(subst[n.id])
+                    return _clone(subst[n.id])
                 if n.id in rename:
                     return ast.copy_location(ast.Name(id=rename[n.id], ctx=n.ctx), n)
                 return n
@@ -388,7 +515,7 @@ class _Flattener:
                             v = e if e is not None else ast.Constant(value=None)
                             if isinstance(v, ast.Name) and isinstance(tgt, ast.Name) and v.id == tgt.id:
                                 return []
-                            return [ast.copy_location(ast.Assign(targets=[copy.deepcopy(tgt)], value=v, lineno=s.lineno), s)]
+                            return [ast.copy_location(ast.Assign(targets=[_clone(tgt)], value=v, lineno=s.lineno), s)]
                         body = _replace_tail_returns(body, make)
                     elif form == "expr":
                         def make(e, s=s):
@@ -411,12 +538,47 @@ class _Flattener:
                 h.body = self.block(h.body, caller_names, stack, depth)
         return [s]
 
+    # -- pre-passes -----------------------------------------------------------------------
+    def callee_aliases(self, node):
+        """`h = Cls._helper` (bound once, at the top level of the body, to an inlinable helper):
+        uses of `h` are replaced by the helper's name and the binding is dropped."""
+        stores = {}
+        for n in ast.walk(node):
+            if isinstance(n, ast.Name) and isinstance(n.ctx, (ast.Store, ast.Del)):
+                stores[n.id] = stores.get(n.id, 0) + 1
+        params = {a.arg for a in ast.walk(node.args) if isinstance(a, ast.arg)}
+        amap = {}
+        keep = []
+        for s in node.body:
+            if isinstance(s, ast.Assign) and len(s.targets) == 1 and isinstance(s.targets[0], ast.Name) \
+                    and stores.get(s.targets[0].id) == 1 and s.targets[0].id not in params \
+                    and isinstance(s.value, (ast.Name, ast.Attribute)) and _pure_arg(s.value):
+                rt = self.resolve_target(s.value, frozenset({self.func.qualname}))
+                if rt is not None and rt[1] is None:
+                    amap[s.targets[0].id] = s.value
+                    continue
+            keep.append(s)
+        if not amap:
+            return
+        node.body = keep
+
+        class Sub(ast.NodeTransformer):
+            def visit_Name(self, n):
+                if n.id in amap and isinstance(n.ctx, ast.Load):
+                    return ast.copy_location(_clone(amap[n.id]), n)
+                return n
+        Sub().visit(node)
+
     def run(self):
-        node = copy.deepcopy(self.func.node)
+        node = _clone(self.func.node)
+        self.callee_aliases(node)
+        _unroll_table_loops(node)
         names = _all_names(node) | {a.arg for a in ast.walk(node) if isinstance(a, ast.arg)}
         node.body = self.block(node.body, names, frozenset({self.func.qualname}), self.depth)
         if not self.inlined:
             return self.func
+        node = _ConstAttr().visit(node)
+        _propagate_str_consts(node)
         node = _ConstAttr().visit(node)
         ast.fix_missing_locations(node)
         for parent in ast.walk(node):
@@ -447,7 +609,12 @@ def helper_closure(prog: Program, func: FuncInfo, depth=4):
         nxt = []
         for g in frontier:
             fl = _Flattener(prog, g)
-            for n in ast.walk(g.node):
+            gnode = _clone(g.node)
+            try:
+                fl.callee_aliases(gnode)
+            except Exception:
+                gnode = g.node
+            for n in ast.walk(gnode):
                 if isinstance(n, ast.Call):
                     res = None
                     try:
